@@ -9,6 +9,7 @@ model's activation list.
 import random
 
 from .. import common as C
+from .. import vmv
 from .. import gen, l1
 
 PID = "C17"
@@ -30,6 +31,11 @@ def run(tier, replay=None):
     cases.sort(key=lambda c: c["id"])
     C.log(f"[{PID}] {len(cases)} failing programs (of {total})")
     dis, skips, st = l1.run_cases(binary, work, cases)
+    # the compiled code on the value machine MSVMV: per-instruction trace validation of the interpreter and
+    # translation validation of the compiler against MSLang (programs outside the machine's fragment are counted)
+    import random as _random
+    vres = vmv.stage(binary, work / "vmv", cases, 700 if tier == "quick" else 7000, _random.Random(rep.seed))
+    vcov = vmv.report(rep, vres, "failing program")
     byid = {c["id"]: c for c in cases}
     for c in cases:
         if c["rejected"]:
@@ -48,12 +54,12 @@ def run(tier, replay=None):
     kinds = {}
     for c in cases:
         kinds[c["kind"]] = kinds.get(c["kind"], 0) + 1
-    rep.coverage = dict(
+    rep.coverage = dict(**vcov, traces_validated_against_impl=vres["recorded"],
         evaluations=len(cases), distinct_nontrivial=sum(1 for c in cases if len(c["chain"]) >= 1),
         rule=f"GenFail.tla BFS: 7 failure kinds x 3 positions x every chain of <= {depth} activations over function/method/list-callback x every split point into an imported module; non-trivial = failure below at least one call",
         exhaustive=(len(cases) == total), per_kind=kinds, out_of_model=len(skips),
         samples=[dict(id=c["id"], trace=c["obs"][0]["trace"], out=c["obs"][0]["out"]) for c in cases[:: max(1, len(cases) // 3)][:3]],
-        states=st["states"] + g.distinct, transitions=st["transitions"] + g.generated, executions=2 * len(cases),
+        states=st["states"] + vres["states"] + g.distinct, transitions=st["transitions"] + vres["transitions"] + g.generated, executions=2 * len(cases),
     )
     rep.assumptions = ["trace entries are compared structurally: kind (module / function / Class::method), file, method name, and the equality pattern between function entries; block markers and a native-code entry are ignored",
                        "string index out of range is the 'key/range' representative of built-in range errors"]
